@@ -54,9 +54,14 @@ def run(ctx):
     ctx.check(any(q.refers_to_decl(a, d.param_ids[3]) and p for a, p in atoms), 'R05.1', MB + 'decode#append-only-permissive', app[0].loc, 'tokens are captured only in permissive mode')
     # R05.2
     rets = [n for n in d.all_nodes() if n.k == 'ReturnStmt']
-    ctx.need(len(rets) == 1, 'decode: single return expected')
-    co = [x for x in rets[0].walk() if x.k == 'ConditionalOperator']
-    rewinds = bool(co) and any(x.k == 'DeclRefExpr' and x.decl['n'] != 's_offset' and x.decl.get('sc') == 'local' for x in co[0].child('then').walk())
+    ctx.need(len(rets) >= 1, 'decode: no return found')
+    # the values decode can return: the arms of a conditional return expression, or the expressions of several return statements
+    co = [x for r_ in rets for x in r_.walk() if x.k == 'ConditionalOperator']
+    arms = [co[0].child('then')] if co else [r_.children[0] for r_ in rets if r_.children]
+    rew = [a_ for a_ in arms if any(x.k == 'DeclRefExpr' and x.decl['n'] != 's_offset' and x.decl.get('sc') == 'local' for x in a_.walk())]
+    rewinds = bool(rew)
+    if rew and not co:
+        co = [type('A', (), {'child': (lambda self, k, _a=rew[0]: _a)})()]
     trunc = [c for c in d.calls() if c.callee is not None and c.callee.get('n') in ('resize', 'erase', 'clear') and c.obj is not None and q.refers_to_member(c.obj, MB + '_unknown')]
     ctx.check((not rewinds) or bool(trunc), 'R05.2', MB + 'decode#rewind-truncates', rets[0].loc,
               'handing back an earlier offset is paired with removing the bytes captured after it',
